@@ -175,7 +175,23 @@ def part_timer(facts, res, fields, fi):
     # the tick loop: the outermost loop (inner loops over small constant tables are unrolled by the interpreter)
     outer = [h_ for h_ in loops if all(o_ == h_ or o_ in loops[h_] for o_ in loops)]
     if len(outer) != 1:
-        res.errors.append("update_timer8_0: the tick loop is not identified (%d loops, %d outermost)" % (len(loops), len(outer)))
+        # several top-level loops (e.g. a second loop over a small constant table after the ticks): the tick loop is the one that
+        # counts - it advances a Range or decrements an integer local it also tests
+        top = [h_ for h_ in loops if not any(h_ != o_ and h_ in loops[o_] for o_ in loops)]
+
+        def counts(h_):
+            for b_ in loops[h_]:
+                bl_ = body["blocks"][b_]
+                t_ = bl_["term"]
+                if t_["k"] == "call" and "ops::Range<" in (t_["callee"].get("full") or "") and (t_["callee"]["path"] or "").endswith("::next"):
+                    return True
+                for s_ in bl_["st"]:
+                    if s_["k"] == "assign" and not s_["p"]["p"] and s_["r"]["k"] in ("bin", "checked") and s_["r"].get("op") in ("Sub", "SubWithOverflow"):
+                        return True
+            return False
+        outer = [h_ for h_ in top if counts(h_)]
+    if len(outer) != 1:
+        res.errors.append("update_timer8_0: the tick loop is not identified (%d loops, %d candidates)" % (len(loops), len(outer)))
         return
     header = outer[0]
     names = {l["n"]: i for i, l in enumerate(body["locals"]) if l["n"]}
@@ -285,14 +301,20 @@ def part_timer(facts, res, fields, fi):
                     # generalise the remaining count; the tick analysed stands for every tick
                     st.mem[root] = Agg([Int(bv.const(0, 16)), Int(bv.seq_bv("remaining", 16))]) if range_style else Int(bv.seq_bv("remaining", 16))
                     # any other integer local assigned (or mutably borrowed) in the loop is loop-carried: arbitrary value
+                    snap["entry_locals"] = {}
+                    snap["carried_vars"] = {}
                     for l_ in sorted(carried):
                         key_ = ("f", fr.fid, l_)
                         cur_ = st.mem.get(key_)
                         if key_ != root and isinstance(cur_, Int):
+                            snap["entry_locals"][l_] = cur_.bits
                             st.mem[key_] = Int(bv.seq_bv("carried_%d" % l_, len(cur_.bits)))
+                            snap["carried_vars"][l_] = st.mem[key_].bits
                     st.eff = ()
                     return "continue"
                 st.add_eff(("count_after", cur.bits if isinstance(cur, Int) else None))
+                st.add_eff(("carried_after", tuple((l_, st.mem[("f", fr.fid, l_)].bits) for l_ in sorted(snap.get("carried_vars", {}))
+                                                   if isinstance(st.mem.get(("f", fr.fid, l_)), Int))))
                 return "stop"
             if div != 0:
                 ip.block_hooks[(key, header)] = at_header     # with no clock selected nothing may happen: analysed as it is
@@ -350,6 +372,23 @@ def part_timer(facts, res, fields, fi):
             TCORB = ip.arr_read(a_io2, bv.const(off["TCORB"], 8))
             TCSR = ip.arr_read(a_io2, bv.const(off["TCSR"], 8))
             ena = {"a": bv.data_bv("t_is_allowed_cmia", 1)[0], "b": bv.data_bv("t_is_allowed_cmib", 1)[0], "o": bv.data_bv("t_is_allowed_ovi", 1)[0]}
+            # registers kept in locals across the ticks (read once before the loop, stored back after it): a loop-carried local whose
+            # value on entry IS the register's content plays the register's role during the ticks
+            ent_l = snap.get("entry_locals", {})
+            cvars = snap.get("carried_vars", {})
+            cache = {}
+            for rn_, blk_ in (("TCNT", TCNT), ("TCSR", TCSR)):
+                hit_ = [l_ for l_, b_ in ent_l.items() if tuple(b_) == tuple(blk_)]
+                if len(hit_) == 1:
+                    cache[rn_] = hit_[0]
+                elif len(hit_) > 1:
+                    res.errors.append("tick loop: several loop-carried locals hold %s on entry: not decidable" % rn_)
+            TCNT0_, TCSR0_ = TCNT, TCSR
+            if "TCNT" in cache:
+                TCNT = cvars[cache["TCNT"]]
+            if "TCSR" in cache:
+                TCSR = cvars[cache["TCSR"]]
+            res.inventory["registers_cached_in_locals"] = sorted(cache)
             t1, car = bv.add_c(TCNT, bv.const(1, 8))
             ovf = car[-1]
             ma = bv.eq(t1, TCORA)
@@ -390,6 +429,14 @@ def part_timer(facts, res, fields, fi):
                     res.ob(okk)
                     if not okk:
                         res.finding("loop|early-exit", "the tick loop is left although ticks remain (a tick is lost)", witness(bad or care))
+                    elif cache:
+                        # the cached registers must be stored back when the loop ends
+                        io2x = bm.store_of(st, "io_registrs2")
+                        for rn_, l_ in sorted(cache.items()):
+                            d = differs(ip.arr_read(io2x, bv.const(off[rn_], 8)), cvars[l_], care)
+                            res.ob(d == 0)
+                            if d != 0:
+                                res.finding("loop|write-back|%s" % rn_, "%s is kept in a local during the ticks and its final value is not stored back to the register when the loop ends" % rn_, witness(d))
                     continue
                 bad = Mx.AND(care, bv.is_zero(rem))
                 res.ob(bad == 0)
@@ -408,8 +455,12 @@ def part_timer(facts, res, fields, fi):
                 res.ob(okk)
                 if not okk:
                     res.finding("tick|stores", "a tick stores to registers other than TCNT0/TCSR0 (indices %r, stores %r)" % (idxs, others), witness(care))
-                got_tcnt = ip.arr_read(io2, bv.const(off["TCNT"], 8))
-                got_tcsr = ip.arr_read(io2, bv.const(off["TCSR"], 8))
+                after_l = dict(([e for e in st.eff if e[0] == "carried_after"] or [(None, ())])[0][1])
+                got_tcnt = after_l.get(cache["TCNT"]) if "TCNT" in cache else ip.arr_read(io2, bv.const(off["TCNT"], 8))
+                got_tcsr = after_l.get(cache["TCSR"]) if "TCSR" in cache else ip.arr_read(io2, bv.const(off["TCSR"], 8))
+                if got_tcnt is None or got_tcsr is None:
+                    res.errors.append("tick loop: the value of a register cached in a local is not available after the tick: not decidable")
+                    continue
                 d = differs(got_tcnt, exp_tcnt, care)
                 res.ob(d == 0)
                 if d != 0:
@@ -424,6 +475,26 @@ def part_timer(facts, res, fields, fi):
                     n = irqs.count(vec)
                     want = Mx.AND(ev, en)
                     bad = Mx.AND(care, Mx.NOT(want)) if n else Mx.AND(care, want)
+                    if n == 0 and bad != 0:
+                        # not requested in the tick in which the event occurs.  Is it recorded in a loop-carried local for later (deferred
+                        # request)?  A record that is idempotent (x | flag, x = true) cannot count: two events of one charge collapse
+                        # into one request - decided by composing the update with itself.  A counting record is not followed further.
+                        defer = [l_ for l_, b_ in after_l.items() if l_ not in cache.values() and any(x_ != y_ and Mx.AND(bad, Mx.XOR(x_, y_)) != 0 for x_, y_ in zip(b_, cvars[l_]))]
+                        if defer:
+                            repeat = cname in ("CompareA", "CompareInputB") and vec in (36, 37)   # a match can recur within one charge only when a compare match clears TCNT
+                            idem = True
+                            for l_ in defer:
+                                sub_ = {Mx.var[x_]: y_ for x_, y_ in zip(cvars[l_], after_l[l_]) if x_ > 1}
+                                twice = tuple(Mx.compose(y_, sub_) for y_ in after_l[l_])
+                                if any(a_ != b_ and Mx.AND(bad, Mx.XOR(a_, b_)) != 0 for a_, b_ in zip(twice, after_l[l_])):
+                                    idem = False
+                            if idem and repeat:
+                                res.ob(False)
+                                res.finding("tick|irq|%d|merged" % vec, "interrupt %d (%s) is not requested in the tick of its event but recorded in a local that cannot count (idempotent update): "
+                                            "several events within one instruction's states yield one request" % (vec, what), witness(bad))
+                            else:
+                                res.errors.append("tick loop: interrupt %d is deferred through a loop-carried local (%s record): the later requests are not followed - not decidable" % (vec, "idempotent" if idem else "counting"))
+                            continue
                     okk = bad == 0 and n <= 1
                     res.ob(okk)
                     if not okk:
